@@ -355,6 +355,24 @@ func traceConcStore(t *testing.T, o opts) {
 				}
 				pw.Wait()
 			}()
+			// two more lookups, of names nobody has asked for yet, at the same time as each other and
+			// as the poll: whatever order their cache writes land in, the last document holds both
+			freshDone := make(chan struct{}, 2)
+			for _, fn := range []string{fmt.Sprintf("x%d", round), fmt.Sprintf("y%d", round)} {
+				g.mu.Lock()
+				g.cur[fn] = 1
+				g.mu.Unlock()
+				go func() {
+					defer func() { recover(); freshDone <- struct{}{} }()
+					cx, cancel := context.WithTimeout(context.Background(), 30*time.Second)
+					defer cancel()
+					if hd, err := st.LookupSecret(cx, fn); err == nil && hd != nil {
+						hmu.Lock()
+						handles[fn] = hd
+						hmu.Unlock()
+					}
+				}()
+			}
 			lookDone := make(chan struct{})
 			go func() {
 				defer close(lookDone)
@@ -416,6 +434,8 @@ func traceConcStore(t *testing.T, o opts) {
 			close(g.gate)
 			<-done
 			<-lookDone
+			<-freshDone
+			<-freshDone
 			// everything has settled: the cache document is the store's current state - every secret
 			// with a handle is in it, at the version the handle yields
 			if doc := sc.doc(); doc != nil {
